@@ -119,7 +119,7 @@ def forward(waters, fracs, truth):
     if key in _fwd_cache:
         return _fwd_cache[key]
     st = stoich()
-    s = phr.session(DBNAME, reload=True)
+    s = phr.Session(DBNAME)
     t = ["SELECTED_OUTPUT 1", " -reset false", " -user_punch true", " -high_precision true", "USER_PUNCH 1",
          " -headings pH " + " ".join(ELS), " 10 PUNCH -LA(\"H+\")"]
     for i, el in enumerate(ELS):
@@ -256,7 +256,7 @@ def run_case(case):
         return {"case": case, "problems": [], "ops": 1, "states": [core.sha(repr(sorted(case.items())))], "outcome": "forward-failed",
                 "not_completed": True, "script": "", "diagnostics": diags}
     text = im.render(problem)
-    s = phr.session(DBNAME, reload=True)
+    s = phr.Session(DBNAME)          # fresh instance + database; also restarts the driver's command log (= this case's script)
     d = s.d
     d.call("s0", "c", "SetCurrentSelectedOutputUserNumber", 1)
     d.call("s0", "c", "SetSelectedOutputStringOn", 1)
@@ -268,11 +268,11 @@ def run_case(case):
         return {"case": case, "problems": [], "ops": 2, "states": [state], "outcome": "error:" + core.sha(r["err"][:200]),
                 "not_completed": True, "script": script, "diagnostics": diags + ["inverse run rc=%s: %s" % (r["rc"], r["err"][:160].replace("\n", " "))]}
     problems, info = im.judge(problem, stoich(), r["out"], selstr)
-    diags += info.get("diags", [])
+    if not problems:
+        diags += info.get("beyond", [])[:1]        # an otherwise clean model with an unbounded transfer (class b, see docstring)
     tr = truth_transfers(case["truth"])
     truth_in = not case.get("pert") and case.get("cons", "none") != "bad"
-    if truth_in and info["n_models"] == 0:
-        diags.append("no model reported although the unperturbed truth is admissible: %r" % (case,))
+    # "at least one model when the truth is admissible" is not part of the statement: counted in the tally only
     outcome = core.sha(repr((info["n_models"], info["sets"])))
     sample = {"case": case, "models": info["n_models"], "sets": info["sets"][:3],
               "first_row": selstr.split("\n")[1][:200] if info["n_models"] else ""}
@@ -283,8 +283,9 @@ def run_case(case):
              "models_mixing(2+ initial solutions)": n if len(problem["solutions"]) > 2 else 0,
              "models_after_range_error_message": sum(1 for a, b in info.get("pre", []) if a),
              "models_after_bare_roundoff_message": sum(1 for a, b in info.get("pre", []) if b),
-             "runs_truth_admissible_but_no_model": 1 if truth_in and n == 0 else 0}
-    return {"case": case, "problems": problems, "ops": 2, "states": [state], "outcome": outcome, "script": script,
+             "runs_truth_admissible_but_no_model": 1 if truth_in and n == 0 else 0,
+             "values_beyond_range_maximum_not_judged": info.get("beyond_range_max", 0)}
+    return {"case": case, "problems": problems, "ops": 2, "states": [state], "outcome": outcome, "script": script if problems else "",
             "sample": sample, "diagnostics": diags, "n_models": n, "tally": tally}
 
 
@@ -318,7 +319,7 @@ def mixes(tier, w):
 
 
 def opt_sets(tier):
-    tols = [None, 1e-8] if tier == "quick" else [None, 1e-8, 1e-12]
+    tols = [None, 1e-8, 1e-12]
     out = []
     for rng, mnl, tol, mw, mp in itertools.product((1, 0), (0, 1), tols, (None, False), (0, 1)):
         o = {}
